@@ -339,7 +339,8 @@ class ExprRun:
                         break
                     crashes.append((None, r.err, r.rc, r.timed_out))
                     break
-                crashes.append((last[1], r.err, r.rc, r.timed_out))
+                # rc 91: the harness's own per-scenario watchdog fired (it attached gdb to itself for the backtrace)
+                crashes.append((last[1], r.err, r.rc, r.timed_out or r.rc == 91))
                 skip = last[2]
                 if skip >= len(lines):
                     break
